@@ -7,5 +7,5 @@ Extraction "sections.ml" SectionModel.init_holder SectionModel.new_section Secti
   SectionModel.code_size_pinned SectionModel.copy_flat SectionModel.copy_section SectionModel.emit_call
   SectionModel.relocate_tail SectionModel.real_size SectionModel.jit_add SectionModel.new_section_cstr SectionModel.section_by_name_cstr
   ChunkModel.copy_flat_c ChunkModel.copy_section_c ChunkModel.jit_add_c ChunkModel.flat
-  JitReloc.emit_call_bytes JitReloc.emit_abs_bytes JitReloc.emit_zero_bytes JitReloc.relocate_holder JitReloc.jit_add_reloc
-  FlagsModel.add_flags FlagsModel.clear_flags FlagsModel.clear_flags_pinned FlagsModel.has_flag.
+  JitReloc.emit_call_bytes JitReloc.emit_abs_bytes JitReloc.emit_zero_bytes JitReloc.emit_code_bytes JitReloc.JZ_BYTES JitReloc.relocate_holder JitReloc.jit_add_reloc
+  FlagsModel.add_flags FlagsModel.clear_flags FlagsModel.clear_flags_pinned FlagsModel.has_flag FlagsModel.TEXT_FLAGS FlagsModel.COPY_PAD_SECTION FlagsModel.COPY_PAD_TARGET FlagsModel.copy_flag.
